@@ -63,6 +63,8 @@ def build_graph(mod, g, order=None):
             else:
                 later.append((i, name, v))
         objs[i] = getattr(mod, nd["cls"])(**kwargs)
+        if str(i) in (g.get("loaded") or {}):
+            objs[i] = reload_config(objs[i], g["loaded"][str(i)])
     for i, name, v in later:
         setattr(objs[i], name, real_val(mod, v, objs))
     for i, nd in enumerate(nodes):
@@ -82,6 +84,23 @@ def build_graph(mod, g, order=None):
             for _ in range(nd["deps"]):
                 objs[i].add_dependencies(tok.dependency(1))
     return [objs[i] for i in range(len(nodes))]
+
+
+def reload_config(o, via):
+    """the same configuration after a round trip through the public save / load API (what `load()` returns is then
+    used as a parameter value like any other configuration)"""
+    from experimaestro.core import serialization
+    from experimaestro.core.context import SerializationContext
+    if via == "state":
+        return serialization.from_state_dict(serialization.state_dict(SerializationContext(), o))
+    import tempfile
+    import shutil
+    d = Path(tempfile.mkdtemp(prefix="xvreload-"))
+    try:
+        serialization.save(o, d)
+        return serialization.load(d)
+    finally:
+        shutil.rmtree(d, ignore_errors=True)
 
 
 def hx(s: str) -> str:
@@ -198,7 +217,13 @@ def run_op(objs, mod, op):
             setmeta(o, op["b"])
             return {"ok": True}
         if k == "addpre":
-            o.add_pretasks(objs[op["p"]])
+            if op.get("via") == "from":
+                # the second public entry point: copy the pre-tasks of a donor configuration
+                donor = _donor_class()()
+                donor.add_pretasks(objs[op["p"]])
+                o.add_pretasks_from(donor)
+            else:
+                o.add_pretasks(objs[op["p"]])
             return {"ok": True}
     except SealedError:
         return {"err": "sealed"}
@@ -211,3 +236,17 @@ def run_op(objs, mod, op):
             return {"err": "sealed"}
         raise
     raise ValueError(k)
+
+
+_DONOR = []
+
+
+def _donor_class():
+    """a parameterless configuration class used as the donor of `add_pretasks_from`"""
+    if not _DONOR:
+        from experimaestro import Config
+
+        class XvDonor(Config):
+            __xpmid__ = "xv.harness.donor"
+        _DONOR.append(XvDonor)
+    return _DONOR[0]
